@@ -39,6 +39,10 @@ pub struct CC(u32);
 impl Component for CA { type Storage = VecStorage<Self>; }
 impl Component for CB { type Storage = DenseVecStorage<Self>; }
 impl Component for CC { type Storage = HashMapStorage<Self>; }
+/// Zero-sized flag component (declaration table only: resource 5).
+#[derive(Default, Clone, Copy)]
+pub struct CZ;
+impl Component for CZ { type Storage = NullStorage<Self>; }
 
 /// A member of a system's data tuple, chosen by a marker type.
 pub trait Pick<'a> {
@@ -250,6 +254,7 @@ fn res_num(id: &ResourceId) -> u32 {
     else if *id == ResourceId::new::<MaskedStorage<CA>>() { 2 }
     else if *id == ResourceId::new::<MaskedStorage<CB>>() { 3 }
     else if *id == ResourceId::new::<MaskedStorage<CC>>() { 4 }
+    else if *id == ResourceId::new::<MaskedStorage<CZ>>() { 5 }
     else if *id == ResourceId::new::<CA>() { 902 }
     else if *id == ResourceId::new::<CB>() { 903 }
     else if *id == ResourceId::new::<CC>() { 904 }
@@ -272,6 +277,7 @@ fn new_world() -> World {
     w.register::<CA>();
     w.register::<CB>();
     w.register::<CC>();
+    w.register::<CZ>();
     for i in 0..6u32 {
         let mut b = w.create_entity();
         if i % 2 == 0 { b = b.with(CA(i)); }
@@ -293,7 +299,7 @@ fn probe<R: Resource>(w: &World) -> char {
 
 fn borrow_state(w: &World) -> String {
     let st = [probe::<EntitiesRes>(w), probe::<LazyUpdate>(w), probe::<MaskedStorage<CA>>(w),
-              probe::<MaskedStorage<CB>>(w), probe::<MaskedStorage<CC>>(w)];
+              probe::<MaskedStorage<CB>>(w), probe::<MaskedStorage<CC>>(w), probe::<MaskedStorage<CZ>>(w)];
     let v: Vec<String> = st.iter().enumerate().filter(|(_, c)| **c != 'n').map(|(i, c)| format!("{}:{}", i, c)).collect();
     if v.is_empty() { "-".into() } else { v.join(",") }
 }
@@ -320,9 +326,11 @@ fn table(out: &mut String) {
     out.push_str(&format!("decl readstorage 0 => {}\n", decl_line::<ReadStorage<CA>>(&w)));
     out.push_str(&format!("decl readstorage 1 => {}\n", decl_line::<ReadStorage<CB>>(&w)));
     out.push_str(&format!("decl readstorage 2 => {}\n", decl_line::<ReadStorage<CC>>(&w)));
+    out.push_str(&format!("decl readstorage 3 => {}\n", decl_line::<ReadStorage<CZ>>(&w)));
     out.push_str(&format!("decl writestorage 0 => {}\n", decl_line::<WriteStorage<CA>>(&w)));
     out.push_str(&format!("decl writestorage 1 => {}\n", decl_line::<WriteStorage<CB>>(&w)));
     out.push_str(&format!("decl writestorage 2 => {}\n", decl_line::<WriteStorage<CC>>(&w)));
+    out.push_str(&format!("decl writestorage 3 => {}\n", decl_line::<WriteStorage<CZ>>(&w)));
     out.push_str(&format!("decl entities => {}\n", decl_line::<Entities>(&w)));
     out.push_str(&format!("decl readlazy => {}\n", decl_line::<Read<LazyUpdate>>(&w)));
 }
